@@ -316,6 +316,23 @@ static void cap_eku(int cnt, size_t max) {
 	{ xb in = xalloc(sl); const uint8_t *p; size_t l = sl; memcpy(in.p, seq, sl); p = in.p; r = x509_ext_key_usage_from_der(oids, &n, max, &p, &l); printf("r=%d", r); if (r == 1) printf(" cnt=%zu", n); xfree(in); }
 	free(oids);
 }
+extern int tls13_process_certificate_list(const uint8_t *cert_list, size_t cert_list_len, uint8_t *certs, size_t *certs_len);
+/* a VALID chain of n certificates through the TLS 1.2 and the TLS 1.3 Certificate parsers into the 2048 bytes the callers provide */
+static void cap_tlscerts(int v13, int n, int withexts) {
+	static uint8_t certs[16384], msg[17000]; size_t cl = 0, ol = 0x5a5a, total = 0; int i, r;
+	xb out = xalloc(TLS_MAX_CERTIFICATES_SIZE);
+	if (v13) { size_t ml = 0;
+		for (i = 0; i < n; i++) { size_t one = mk_cert(certs, sizeof certs, i > 0, i ? "ROOT" : "leaf", i ? 0 : 1, 0, withexts); if (!one) { printf("ERR-BUILD"); xfree(out); return; }
+			msg[ml++] = (uint8_t)(one >> 16); msg[ml++] = (uint8_t)(one >> 8); msg[ml++] = (uint8_t)one; memcpy(msg + ml, certs, one); ml += one; msg[ml++] = 0; msg[ml++] = 0; total += one; }
+		{ xb in = xalloc(ml); memcpy(in.p, msg, ml); r = tls13_process_certificate_list(in.p, ml, out.p, &ol); xfree(in); }
+	} else { size_t rl = 0;
+		for (i = 0; i < n; i++) { size_t one = mk_cert(certs + cl, sizeof certs - cl, i > 0, i ? "ROOT" : "leaf", i ? 0 : 1, 0, withexts); if (!one) { printf("ERR-BUILD"); xfree(out); return; } cl += one; }
+		total = cl; tls_record_set_protocol(msg, TLS_protocol_tls12);
+		if (tls_record_set_handshake_certificate(msg, &rl, certs, cl) != 1) { printf("ERR-BUILD"); xfree(out); return; }
+		{ xb in = xalloc(rl); memcpy(in.p, msg, rl); r = tls_record_get_handshake_certificate(in.p, out.p, &ol); xfree(in); }
+	}
+	printf("total=%zu r=%d", total, r); if (r == 1) printf(" len=%zu", ol); xfree(out);
+}
 static int handle_cap(size_t nw, char **w) {
 	if (strcmp(w[0], "cap") || nw < 3) return 0;
 	ent_seed(0xCA9, -1);
@@ -328,6 +345,7 @@ static int handle_cap(size_t nw, char **w) {
 	else if (!strcmp(w[1], "tlsexts") && nw == 4) cap_tlsexts(atoi(w[2]), strtoul(w[3], NULL, 10));
 	else if (!strcmp(w[1], "digalgs") && nw == 4) cap_digalgs(atoi(w[2]), strtoul(w[3], NULL, 10));
 	else if (!strcmp(w[1], "eku") && nw == 4) cap_eku(atoi(w[2]), strtoul(w[3], NULL, 10));
+	else if (!strcmp(w[1], "tlscerts") && nw == 5) cap_tlscerts(atoi(w[2]) == 13, atoi(w[3]), atoi(w[4]));
 	else printf("ERR bad-cap");
 	return 1;
 }
